@@ -16,7 +16,7 @@ import z3
 
 from pyvc.harness import Scenario
 from pyvc.interp import Interp, PyRaise
-from pyvc.values import SObj, Opaque, Obj
+from pyvc.values import SObj, Opaque, Obj, term
 from theories import astmodel as A
 from . import convmodel as CM
 from .c01_converter import FnStub, world
@@ -236,3 +236,33 @@ def s_nested_function_def(ctx):
 
 
 SCENARIOS.append(Scenario("C02.converter.nested_function_def", s_nested_function_def, F("Converter._translate_nested_function_def")))
+
+
+
+def s_exit_scope(ctx):
+    """_enter_scope / _exit_scope: the block's graph is returned, the enclosing function and scope depth are restored,
+    and every operator domain used inside the block (its opset imports) is imported by the enclosing function — the
+    ModelProto / FunctionProto built from the enclosing function must import the domains of nodes in its subgraphs."""
+    from pyvc.values import SInt
+    I, self, top, state = world(ctx, set(), set())
+    outer_has = ctx.choose(2, "the enclosing function already imports the custom domain") == 1
+    v_outer, v_inner, v_def = ctx.int("v_outer"), ctx.int("v_inner"), ctx.int("v_default")
+    top.opset_imports = {"": SInt(v_def)}
+    if outer_has:
+        top.opset_imports["my.custom"] = SInt(v_outer)
+    depth = len(self.fields["_locals"])
+    I.call(I.getattr(self, "_enter_scope"), ["then_branch", None])
+    inner = self.fields["_current_fn"]
+    ok_enter = inner is not top and len(self.fields["_locals"]) == depth + 1
+    # nodes appended inside the block record their domains on the block's function (IRFunction.append_node)
+    inner.opset_imports = {"my.custom": SInt(v_inner), "": SInt(v_def)}
+    r = I.call(I.getattr(self, "_exit_scope"), [])
+    ctx.check("C02.converter.scope.exit_returns_the_block_and_restores_the_enclosing_function",
+              ok_enter and r is inner and self.fields["_current_fn"] is top and len(self.fields["_locals"]) == depth, CL_REF)
+    ctx.check("C02.converter.scope.domains_used_inside_a_block_are_imported_by_the_enclosing_function", "my.custom" in top.opset_imports,
+              "C02: 'every domain used ... is imported' — a custom-domain operator used only inside an if/loop body or nested function")
+    if "my.custom" in top.opset_imports and outer_has:
+        ctx.check("C02.converter.scope.existing_import_of_the_enclosing_function_is_kept", term(top.opset_imports["my.custom"]) == v_outer, CL_REF)
+
+
+SCENARIOS.append(Scenario("C02.converter.scope", s_exit_scope, F("Converter._enter_scope", "Converter._exit_scope")))
